@@ -216,6 +216,17 @@ def check_h2c(cx, rule):
             rule.bad(tag + "|ab", "simplified SWU requires a*b != 0 on the target curve", loc(z))
         else:
             rule.ok(tag + "|ab", "a*b != 0", loc(z))
+            # RFC 9380 section 6.6.2 criterion 4: g(B / (Z * A)) is square, so that the exceptional case of the map
+            # (Z^2 u^4 + Z u^2 = 0) always finds y on the first candidate x1 = B / (Z * A)
+            try:
+                x = F.mul(E.b, F.inv(F.mul(zeta, E.a)))
+                gx = F.add(F.add(F.mul(F.mul(x, x), x), F.mul(E.a, x)), E.b)
+                if F.is_square(gx):
+                    rule.ok(tag + "|exceptional", "g(B/(ZETA*A)) is a square", loc(z))
+                else:
+                    rule.bad(tag + "|exceptional", "g(B/(ZETA*A)) is not a square: for u = 0 (and Z u^2 = -1) the simplified SWU map takes its second candidate, which is not on the curve", loc(z))
+            except Exception as e:
+                rule.undecided(tag + "|exceptional", "not evaluable: %s" % e, loc(z))
     # WB isogeny maps: E' -> E polynomial identity
     for im in reg.impls_of("WBConfig", "ISOGENY_MAP"):
         owner = im["owner"]
